@@ -18,6 +18,10 @@ static GLOBAL: mem::Counting = mem::Counting;
 
 fn main() {
     let args: Vec<String> = std::env::args().collect();
+    if args.len() == 4 && args[1] == "C06-deep" {
+        install_quiet_panic_hook();
+        std::process::exit(c06::run_deep_point(&args[2], args[3].parse().unwrap_or(1000)));
+    }
     if args.len() < 5 {
         eprintln!("usage: vh <property> <quick|thorough> <seed> <outdir> [extra]");
         std::process::exit(2);
